@@ -1,6 +1,7 @@
 package storesim
 
 import (
+	"strings"
 	"context"
 	"errors"
 	"fmt"
@@ -193,7 +194,8 @@ func (r *clusterRunner) parF(clients [][]Op) {
 					cancel()
 					r.logf("c%d bulk#%d (%d docs) -> %v", ci, op.Bulk, len(op.Docs), err)
 					if err != nil {
-						if r.healthy() && r.trouble() == troubleBefore {
+						// (a breaker that opened during earlier trouble stays open for its sleep window)
+						if r.healthy() && r.trouble() == troubleBefore && !strings.Contains(err.Error(), "circuit is open") {
 							r.violate("api_error", "StoreDocuments failed although every store is up and reachable: %v", err)
 							return
 						}
